@@ -121,7 +121,7 @@ func (p *Program) Func(pkgPath, name string) *ssa.Function {
 			return nil
 		}
 		named := t.Type()
-		for _, recv := range []types.Type{types.NewPointer(named), named} {
+		for _, recv := range []types.Type{named, types.NewPointer(named)} {
 			sel := p.SSA.MethodSets.MethodSet(recv).Lookup(sp.Pkg, mname)
 			if sel != nil {
 				return p.SSA.MethodValue(sel)
